@@ -117,9 +117,7 @@ def main():
         for c in checks:
             t = time.time()
             rc, out = sh([os.path.join(V, "check"), c, "--tier", a.tier], cwd=V, timeout=3000)
-            lines = [l for l in out.split("\n") if l.startswith("VIOLATION") or l.startswith("   ")]
-            res[c] = {"exit": rc, "caught": rc == 1 and "VIOLATION" in out, "no_failing_input_found": "no-failing-input-found" in out,
-                      "first": "\n".join(lines[:2])[:700], "wall_s": round(time.time() - t, 1)}
+            res[c] = summarise(rc, out, time.time() - t)
     finally:
         sh(["git", "-C", "/repo", "checkout", "--", "."])
         for ep, txt in saved.items():
@@ -137,6 +135,20 @@ def main():
     for c, r in res.items():
         print(c, "CAUGHT" if r["caught"] else "missed", "(no-failing-input-found)" if r["no_failing_input_found"] else "", r["wall_s"], "s")
         print("   ", r["first"][:300].replace("\n", " | "))
+
+
+def summarise(rc, out, wall):
+    """A check prints up to five VIOLATION lines, each followed by an indented summary. The change counts as caught with a concrete failing
+    input when at least one of them does not end in no-failing-input-found; that one is quoted."""
+    ls = out.split("\n")
+    blocks = []
+    for i, l in enumerate(ls):
+        if l.startswith("VIOLATION"):
+            blocks.append((l, ls[i + 1] if i + 1 < len(ls) and ls[i + 1].startswith("   ") else ""))
+    concrete = [b for b in blocks if not b[0].rstrip().endswith("no-failing-input-found")]
+    pick = (concrete or blocks or [("", "")])[0]
+    return {"exit": rc, "caught": rc == 1 and bool(blocks), "no_failing_input_found": bool(blocks) and not concrete,
+            "first": (pick[0] + "\n" + pick[1])[:700], "violation_lines": len(blocks), "wall_s": round(wall, 1)}
 
 
 def run_in_slot(a, meta, patch, checks, dst):
@@ -170,9 +182,7 @@ def run_in_slot(a, meta, patch, checks, dst):
             except subprocess.TimeoutExpired as e:
                 rc, out = 124, "[timeout]"
             out = out.replace(vd, V)
-            lines = [l for l in out.split("\n") if l.startswith("VIOLATION") or l.startswith("   ")]
-            res[c] = {"exit": rc, "caught": rc == 1 and "VIOLATION" in out, "no_failing_input_found": "no-failing-input-found" in out,
-                      "first": "\n".join(lines[:2])[:700], "wall_s": round(time.time() - t, 1)}
+            res[c] = summarise(rc, out, time.time() - t)
     finally:
         sh(["git", "-C", "/repo", "worktree", "remove", "--force", rd])
         shutil.rmtree(os.path.join(vd, "build", "run"), ignore_errors=True)
